@@ -1226,13 +1226,8 @@ M("c09-allocate-before-recheck", "C09", "scope.go",
 """, expect="O1 double-checked")
 M("c09-subscope-no-recheck", "C09", "scope_registry.go",
   """	if s, ok := r.lockedLookup(subscopeBucket, sanitizedKey); ok {
-		if _, ok = r.lockedLookup(subscopeBucket, unsanitizedKey); !ok {
-			subscopeBucket.s[unsanitizedKey] = s
-		}
-		return s
-	}
-
-	allTags""", """	allTags""", expect="O1 double-checked")
+		if !s.closed.Load() || s.testScope {""", """	if s, ok := r.lockedLookup(subscopeBucket, sanitizedKey); ok && len(prefix) > 1<<30 {
+		if !s.closed.Load() || s.testScope {""", expect="O1 double-checked")
 M("c09-probe-without-lock", "C09", "scope.go",
   """func (s *scope) timer(sanitizedName string) (Timer, bool) {
 	s.tm.RLock()
@@ -1365,7 +1360,7 @@ M("c07-reacquire-no-report", "C07", "scope_registry.go",
 """, """		if parent.reporter != nil {
 			s.report(parent.reporter)
 		}
-""", expect="O2 report-before-clear")
+""", expect="O2 report-before-clear", count=2)
 M("c07-identity-check-wrong-scope", "C07", "scope_registry.go",
   "				r.removeWithRLock(subscopeBucket, name, s)\n				s.clearMetrics()\n			}\n		}\n\n		subscopeBucket.mu.RUnlock()\n	}\n}\n\nfunc (r *scopeRegistry) CachedReport() {",
   "				r.removeWithRLock(subscopeBucket, name, r.root)\n				s.clearMetrics()\n			}\n		}\n\n		subscopeBucket.mu.RUnlock()\n	}\n}\n\nfunc (r *scopeRegistry) CachedReport() {", expect="O3 lock-gap-caller")
@@ -1392,6 +1387,80 @@ M("c07-clear-under-bucket-write-lock-calls-report", "C07", "scope_registry.go",
 			s.clearMetrics()""", """			_ = s.Close()
 			r.reportInternalMetrics()
 			s.clearMetrics()""", expect="O5 lock-order")
+M("c07-revert-closed-handout-sanitized-key", "C07", "scope_registry.go",
+  """	if s, ok := r.lockedLookup(subscopeBucket, sanitizedKey); ok {
+		if !s.closed.Load() || s.testScope {
+			if _, ok = r.lockedLookup(subscopeBucket, unsanitizedKey); !ok {
+				subscopeBucket.s[unsanitizedKey] = s
+			}
+			return s
+		}
+""", """	if s, ok := r.lockedLookup(subscopeBucket, sanitizedKey); ok {
+		if true {
+			if _, ok = r.lockedLookup(subscopeBucket, unsanitizedKey); !ok {
+				subscopeBucket.s[unsanitizedKey] = s
+			}
+			return s
+		}
+""", expect="O6 live-handout")
+M("c07-handout-closed-unsanitized", "C07", "scope_registry.go",
+  """		if !s.closed.Load() || s.testScope {
+			subscopeBucket.mu.RUnlock()
+			return s
+		}
+""", """		if !s.closed.Load() || s.testScope || parent.testScope || len(tags) == 0 {
+			subscopeBucket.mu.RUnlock()
+			return s
+		}
+""", expect="O6 live-handout")
+B("c07-benign-replace-without-delete-c07", "C07", "scope_registry.go",
+  """		delete(subscopeBucket.s, sanitizedKey)
+		s.clearMetrics()
+	}
+
+	allTags""", """		s.clearMetrics()
+	}
+
+	allTags""")
+B("c07-benign-replace-without-delete-c09", "C09", "scope_registry.go",
+  """		delete(subscopeBucket.s, sanitizedKey)
+		s.clearMetrics()
+	}
+
+	allTags""", """		s.clearMetrics()
+	}
+
+	allTags""")
+B("c07-benign-replace-without-delete-c01", "C01", "scope_registry.go",
+  """		delete(subscopeBucket.s, sanitizedKey)
+		s.clearMetrics()
+	}
+
+	allTags""", """		s.clearMetrics()
+	}
+
+	allTags""")
+B("c07-benign-replace-without-delete-c05", "C05", "scope_registry.go",
+  """		delete(subscopeBucket.s, sanitizedKey)
+		s.clearMetrics()
+	}
+
+	allTags""", """		s.clearMetrics()
+	}
+
+	allTags""")
+M("c07-replace-unlock-gap", "C09", "scope_registry.go",
+  """		delete(subscopeBucket.s, sanitizedKey)
+		s.clearMetrics()
+	}
+
+	allTags""", """		delete(subscopeBucket.s, sanitizedKey)
+		subscopeBucket.mu.Unlock()
+		s.clearMetrics()
+		subscopeBucket.mu.Lock()
+	}
+
+	allTags""", expect="O1 double-checked")
 B("c07-benign-switch-to-if", "C07", "scope_registry.go",
   """		switch {
 		case parent.reporter != nil:
@@ -1404,7 +1473,7 @@ B("c07-benign-switch-to-if", "C07", "scope_registry.go",
 		} else if parent.cachedReporter != nil {
 			s.cachedReport()
 		}
-""")
+""", count=2)
 
 # ---------------------------------------------------------------- C08 root close
 M("c08-revert-wg-wait", "C08", "scope.go",
@@ -1630,7 +1699,7 @@ M("c09-closure-unlock-without-lock", "C09", "scope.go",
   """		ss.cm.RLock()
 		for key, c := range ss.counters {""", """		for key, c := range ss.counters {""", expect="O3 lock-pairing")
 M("c11-testscope-pruned", "C11", "scope_registry.go",
-  "		if !s.closed.Load() || s.testScope {", "		if !s.closed.Load() {", expect="O4 test-scope-exempt")
+  "		if !s.closed.Load() || s.testScope {", "		if !s.closed.Load() {", expect="O4 test-scope-exempt", count=2)
 M("c11-entry-key-without-tags", "C11", "scope.go",
   """			id := KeyForPrefixedStringMap(name, tags)
 			snap.counters[id] = &counterSnapshot{""", """			id := KeyForPrefixedStringMap(name, nil)
